@@ -211,9 +211,9 @@ class RuleGen:
         return ("iflet", v, src)
 
     # -------------------------------------------------------------- sequences and disjunctions
-    def gen_or(self, sc, ctx, depth, force=(), want=()):
+    def gen_or(self, sc, ctx, depth, force=(), want=(), nalts=None):
         rng = self.rng
-        nalts = rng.choice([2, 2, 3])
+        nalts = nalts or rng.choice([2, 2, 3])
         export = list(force)
         for _ in range(rng.choice([0, 1, 1, 2])):
             export.append((self.fresh(), "int" if rng.chance(4, 5) else "opt"))
@@ -293,7 +293,7 @@ def gen_vars(e):
 
 C07_TAGS = ["or", "or>or", "pat", "none", "rep", "join", "const", "expr0", "expr1", "wild", "neg", "cond", "multi-head", "fact",
             "or>rep", "or>pat", "or>expr1", "or>wild", "or>neg", "or>const", "or>or>rep", "or>or>pat", "or>or>expr1", "pat+rep", "pat+expr", "wild+expr", "neg+wild",
-            "or>cond", "multi-head+or", "multi-head-fact", "expr1x2"]
+            "or>cond", "multi-head+or", "multi-head-fact", "expr1x2", "orxor"]
 
 
 def expr1_clauses(items):
@@ -315,7 +315,18 @@ def gen_c07_rule(rng, p, edb, idb, heads, want, low):
     g.neg_rels = list(edb) + ([idb[0]] if not low else [])
     if low: g.body_rels = list(edb)
     sc = Scope()
-    if "expr1x2" in want:
+    if "orxor" in want:
+        # two disjunctions in ONE conjunction whose numbers of alternatives share a factor (2x2, 2x4 via nesting, 3x3): the product of the
+        # alternatives must contain every combination exactly once
+        want = [w for w in want if w != "orxor"]
+        na, nb = rng.choice([(2, 2), (2, 2), (3, 3), (2, 4), (4, 2)])
+        pre = g.gen_clause(sc, "", want=()) if rng.chance(1, 2) else None
+        o1 = g.gen_or(sc, "", 0, nalts=na)
+        o2 = g.gen_or(sc, "", 0, nalts=nb) if o1 is not None else None
+        if o1 is None or o2 is None: return None, None
+        body = ([pre] if pre is not None else []) + [o1, o2]
+        g.tags.add("orxor")
+    elif "expr1x2" in want:
         # two clauses of one conjunction, each with an expression argument over a variable the clause itself binds: `r(a, a + 1), q(b, b + 2)`
         want = [w for w in want if w != "expr1x2"]
         cand = [r for r in g.rels_for(()) if S.rel_types(p, r).count("int") >= 2 and not p["rels"][r].get("lat")]
@@ -352,7 +363,7 @@ def gen_c07_rule(rng, p, edb, idb, heads, want, low):
 def gen_c07_program(rng):
     p, edb, idb = gen_schema(rng)
     tags = set()
-    wants = rng.shuffle(["or", "pat", "rep", "expr1", "wild", "neg", "const", "cond", "none", "expr0", "expr1x2"])
+    wants = rng.shuffle(["or", "pat", "rep", "expr1", "wild", "neg", "const", "cond", "none", "expr0", "expr1x2", "orxor"])
     plan = [[idb[0]]] + [[h] for h in idb[1:]] + [[rng.choice(idb[1:]), rng.choice(idb)]] + [[rng.choice(idb[1:])] for _ in range(rng.range(1, 3))]
     for heads in plan:
         heads = list(dict.fromkeys(heads))
